@@ -423,11 +423,33 @@ def gen_streams(ctx, pool, bigpool):
         S.append({"cls": "garbage", "items": items})
 
     # -- big messages ------------------------------------------------------------
+    sm = [m for m in small if len(m["ser"]) // 2 <= 40]
     for m in bigpool:
-        items = [fr(m)]
-        if rng.random() < 0.5:
-            items = [["gap", rand_gap(rng).hex()]] + items + [fr(reset)]
+        if len(m["ser"]) // 2 >= 65000:
+            # a near-maximum frame between small frames: pending bytes + chunk exceed 64 KiB while the
+            # big frame is being completed, under 1-byte / 1024 / 4096-byte / whole-stream reads
+            items = [fr(rng.choice(sm)), fr(m), fr(reset), fr(rng.choice(sm))]
+            if rng.random() < 0.5:
+                items = [["gap", rand_gap(rng).hex()]] + items
+        else:
+            items = [fr(m)]
+            if rng.random() < 0.5:
+                items = [["gap", rand_gap(rng).hex()]] + items + [fr(reset)]
         S.append({"cls": "clean", "items": items, "big": True})
+    # one read() far above 64 KiB holding many complete frames
+    def many(nframes, pick):
+        items = []
+        for i in range(nframes):
+            items.append(fr(pick(i)))
+            if i % 97 == 5:
+                items.append(["gap", rand_gap(rng, 1, 4).hex()])
+        return items
+    mid = [m for m in small if 250 <= len(m["ser"]) // 2 <= 400] or small
+    nmid = 72000 // (sum(len(m["frame"]) // 2 for m in mid) // len(mid)) + 1
+    S.append({"cls": "clean", "items": many(nmid, lambda i: mid[i % len(mid)]), "big": True, "many": True})
+    if ctx.thorough:
+        S.append({"cls": "clean", "items": many(9000, lambda i: sm[i % len(sm)]), "big": True, "many": True})
+        S.append({"cls": "clean", "items": many(1500, lambda i: small[(i * 7) % len(small)]), "big": True, "many": True})
     return S
 
 
@@ -669,6 +691,62 @@ def expected_of(oc, payload_hex):
     return None
 
 
+def ingest_shape_obligation():
+    """The translator tie (C01_pyfun) selects the tests and slices INSIDE the loops of
+    DevOutThread.ingest.  This obligation covers the rest of the body, fail-closed: apart from the
+    docstring and logging calls, the top-level statements must be exactly
+        self.__data.extend(<the parameter>)      (modelled as buf ++ chunk)
+        while ...:                                (the outer loop, modelled by ingest_loop)
+    in this order; anything else that could touch the buffer before, between or after them
+    (e.g. a size cap deleting bytes before the loop) is not what Model.ingest transcribes."""
+    import ast
+    path = os.path.join(C.REPO, "whad/device/device.py")
+    try:
+        tree = ast.parse(open(path).read())
+    except (OSError, SyntaxError) as e:
+        return False, "cannot read/parse whad/device/device.py: %s" % e
+    fn = None
+    for node in ast.walk(tree):
+        if isinstance(node, ast.ClassDef) and node.name == "DevOutThread":
+            for f in node.body:
+                if isinstance(f, ast.FunctionDef) and f.name == "ingest":
+                    fn = f
+    if fn is None:
+        return False, "DevOutThread.ingest not found"
+    params = [a.arg for a in fn.args.args[1:]]
+    def is_doc(st):
+        return isinstance(st, ast.Expr) and isinstance(st.value, ast.Constant) and isinstance(st.value.value, str)
+    def is_log(st):
+        return (isinstance(st, ast.Expr) and isinstance(st.value, ast.Call) and isinstance(st.value.func, ast.Attribute)
+                and isinstance(st.value.func.value, ast.Name) and st.value.func.value.id in ("logger", "logging"))
+    def is_extend(st):
+        if not (isinstance(st, ast.Expr) and isinstance(st.value, ast.Call)):
+            return False
+        c = st.value
+        return (isinstance(c.func, ast.Attribute) and c.func.attr == "extend" and isinstance(c.func.value, ast.Attribute)
+                and isinstance(c.func.value.value, ast.Name) and c.func.value.value.id == "self"
+                and c.func.value.attr.endswith("__data") and len(c.args) == 1 and not c.keywords
+                and isinstance(c.args[0], ast.Name) and c.args[0].id in params)
+    def is_plain_return(st):
+        return isinstance(st, ast.Return) and (st.value is None or (isinstance(st.value, ast.Constant) and st.value.value is None))
+    shape = []
+    for st in fn.body:
+        if is_doc(st) or is_log(st):
+            continue
+        if is_extend(st):
+            shape.append("extend")
+        elif isinstance(st, ast.While):
+            shape.append("while")
+        elif is_plain_return(st) and shape == ["extend", "while"]:
+            continue
+        else:
+            return False, ("DevOutThread.ingest line %d: a top-level statement that is neither the buffer extend, the outer loop nor "
+                           "logging (%s) - not part of what Model.ingest transcribes" % (st.lineno, type(st).__name__))
+    if shape != ["extend", "while"]:
+        return False, "DevOutThread.ingest top-level shape is %r, expected ['extend', 'while']" % shape
+    return True, "ingest = extend; while"
+
+
 def run(ctx):
     C.build_dir(PID, clean=True)
     ctx.cov["trusted_base"] = [
@@ -692,6 +770,12 @@ def run(ctx):
     gen = pyfun_util.check_generated(ctx, PID)
     if not gen["ok"]:
         proofs_ok, detail = False, (detail if not proofs_ok else str(gen["what"])) + gen["detail"]
+    shape_ok, shape_detail = ingest_shape_obligation()
+    ctx.cov["obligations"] += 1
+    ctx.cov["discharged"] += 1 if shape_ok else 0
+    ctx.cov.setdefault("theorems", {})["ingest_body_shape (structural, fail-closed)"] = "ok: " + shape_detail if shape_ok else shape_detail
+    if not shape_ok:
+        proofs_ok, detail = False, ("translator tie, whole-body obligation: " + shape_detail + ("\n" + detail if not proofs_ok else ""))
     ctx.log("proofs:", proofs_ok, detail.splitlines()[0][:200])
 
     # ---- real messages from the real hub and sender ---------------------------
@@ -741,10 +825,24 @@ def run(ctx):
             st["chs"] = st["chunkings"]
         elif st.get("big"):
             n = len(st["stream"])
-            st["chs"] = [["every", 4096], ["reads", [None, 3, 0, 2, None, 1000, None, 0, n - 2000, None]]]
-            if ctx.thorough:
-                st["chs"] += [["sizes", []], ["every", 65535], ["sizes", [1, 1, 1, 1, 1, n - 10]],
-                              ["sizes", sorted([ctx.rng.randrange(1, 3000), 2, 1, ctx.rng.randrange(1, 60000)])]]
+            if st.get("many"):
+                # the whole stream in ONE read (> 64 KiB), a 70000-byte read then the rest, ordinary reads
+                st["chs"] = [["sizes", []], ["sizes", [70000]], ["every", 4096]]
+                if ctx.thorough:
+                    st["chs"] += [["every", 1024], ["sizes", [1, n - 2]], ["every", 1]]
+            else:
+                st["chs"] = [["every", 4096]]
+                if n > 65539:
+                    st["chs"] += [["sizes", []], ["every", 1024], ["every", 1]]
+                st["chs"].append(["reads", [None, 3, 0, 2, None, 1000, None, 0, n - 2000, None]])
+                if ctx.thorough:
+                    st["chs"] += [["sizes", []], ["every", 65535], ["sizes", [1, 1, 1, 1, 1, n - 10]],
+                                  ["sizes", sorted([ctx.rng.randrange(1, 3000), 2, 1, ctx.rng.randrange(1, 60000)])]]
+                seen_ch, uniq_ch = set(), []
+                for ch in st["chs"]:
+                    if json.dumps(ch) not in seen_ch:
+                        seen_ch.add(json.dumps(ch)); uniq_ch.append(ch)
+                st["chs"] = uniq_ch
         else:
             st["chs"] = chunkings_for(ctx.rng, st["stream"], st["lay"], ctx.thorough)
 
@@ -889,6 +987,7 @@ def run(ctx):
     cov_hits = {b: 0 for b in Mirror.BRANCHES}
     mirror_bad = 0
     nontrivial = []
+    coq_skipped = [0]
     for si, st in enumerate(streams):
         groups = {}
         table = {}
@@ -897,6 +996,12 @@ def run(ctx):
                 continue
             for p, oc in res["table"]:
                 table[p] = oc
+            if (ch[0] == "every" and len(st["stream"]) // ch[1] > 3000) or \
+               (not ctx.thorough and len(st["stream"]) > 20000 and sum(len(g) for g in groups.values()) >= (1 if st.get("many") else 2)):
+                # e.g. 1-byte reads of a 64 KiB stream: run on the implementation (oracle), not re-run in Coq
+                # where each ingest call costs the buffer length; C01_chunking_invariant covers it
+                coq_skipped[0] += 1
+                continue
             groups.setdefault(json.dumps([res["out"], res["exc"]]), []).append(ch)
         for ch, res in zip(st["chs"], st["res"]):
             if res.get("skipped") or res["exc"] == "IngestHang":
@@ -976,6 +1081,7 @@ def run(ctx):
                             "65..1024": sum(1 for x in sizes if 64 < x <= 1024), ">1024": sum(1 for x in sizes if x > 1024)},
         "items_by_kind": {k: sum(1 for st in streams for it in st["items"] if it[0] == k) for k in ("frame", "gap", "junk", "zero", "trunc", "raw")},
         "cases_hitting_model_branch": cov_hits,
+        "runs_oracle_only_not_reevaluated_in_coq": coq_skipped[0],
         "protobuf_value_mutation_payloads": pb_classes,
         "truncated_cases_reproducing_known_finding": n_finding_cases,
         "sweeps": {name: {"tokens": toks, "max_tokens": sweep_maxlen(ctx, name)} for name, toks in SWEEPS.items()},
